@@ -38,6 +38,11 @@ func setupDNS(e *sym.Engine, st *sym.State, l *sym.Loaded) {
 	e.RedirectPkg = root
 }
 
+// dnsPSL is the PSL model of the DNS harnesses: the default one plus four digits, so
+// that host names over {z,q,0,2,3,8} are covered (the real djb2 collides on "08"/"2z",
+// "0q"/"23", ...).  Validated against the real library on every run of C02.
+var dnsPSL = &sym.PSLModel{Free: sym.DefaultPSL.Free + "0238", Tails: sym.DefaultPSL.Tails}
+
 func init() {
 	register(&Spec{
 		ID:       "C02",
@@ -53,17 +58,27 @@ func init() {
 			for _, c := range cfgs {
 				jobs = append(jobs, Job{Pkg: "root", Func: "verifC02", Args: []int64{c.nh, c.nn, c.pat, c.host}})
 			}
+			// the real hash function on 2-byte names over {z,q,0,2,3,8} (collisions exist: "08"/"2z", "0q"/"23"): counterexamples replay
+			jobs = append(jobs, Job{Pkg: "root", Func: "verifC02", Args: []int64{1, 0, 2, 102}, RealHash: true})
+			jobs = append(jobs, Job{Pkg: "root", Func: "verifC02", Args: []int64{2, 0, 2, 102}, RealHash: true})
+			jobs = append(jobs, Job{Pkg: "root", Func: "verifC02", Args: []int64{1, 1, 2, 102}, RealHash: true})
 			return jobs
 		},
-		Setup:        setupDNS,
+		Setup: func(e *sym.Engine, st *sym.State, l *sym.Loaded) {
+			setupDNS(e, st, l)
+			e.Ctx["psl"] = dnsPSL
+		},
 		AbstractHash: true,
 		MustReach:    []string{"c02.basic", "c02.host", "c02.hostlevel"},
 		Bounds: map[string]string{
-			"quick":    "0..2 hosts-file rules and 0..2 network rules (at most 3 rules together): (1..2 names of two symbolic letters, IPv4 or IPv6) and 0..2 network rules (literal pattern of symbolic bytes, fully symbolic option words and type masks under InvRule, optional $domain / ~$domain / $dnstype / $dnsrewrite); DNS request with a hostname of 2..3 symbolic bytes, symbolic record type and client name; the pooled request object has arbitrary contents; the hash is uninterpreted; IsHostLevelNetworkRule against the documented predicate for all option words",
+			"quick":    "0..2 hosts-file rules and 0..2 network rules (at most 3 rules together): (1..2 names of two symbolic letters, IPv4 or IPv6) and 0..2 network rules (literal pattern of symbolic bytes, fully symbolic option words and type masks under InvRule, optional $domain / ~$domain / $dnstype / $dnsrewrite); DNS request with a hostname of 2..3 symbolic bytes, symbolic record type and client name; the pooled request object has arbitrary contents; the hash is uninterpreted, plus real-hash jobs (1..2 host rules, 1+1 rules) with names over {z,q,0,2,3,8} on which the real djb2 collides; IsHostLevelNetworkRule against the documented predicate for all option words",
 			"thorough": "as quick, plus 3 host rules, 3 network rules, 1+2 rules with 3-byte hostnames, 0+2 and 1+1 rules with 5-byte patterns (shortcut table); 2+2 and 3+1 rules exhausted the per-job budget and are not claimed",
 		},
 		Outside:     []string{"which rule wins inside a class (C06/C07)", "the storage and its scanner (stubbed as perfect; C11)", "hostnames longer than 3 bytes", "bare-domain lines (C18)"},
 		Assumptions: []string{"scanner stub yields the harness rules in order with distinct indexes", "literal-pattern stub", "hash abstraction (lemma in C01)", "PSL model"},
 		Rule:        "rule counts and lengths are job parameters; all rule fields and the request symbolic",
+		Validate: func(l *sym.Loaded, tier string, seed int64) (int, []string) {
+			return sym.ValidatePSL(dnsPSL, 4)
+		},
 	})
 }
